@@ -155,7 +155,7 @@ theorem att_activate (st : BmcState) (c : Client) (h : ReqHdr) (a q : Nat) (hh :
   obtain ⟨d, r, c', g1, g2, _, _, _, g6, _⟩ := bmc_activate md5 hmd5 b cfg conf st c h a q hh ha hph hc
   obtain ⟨d', code, h1, _, h3⟩ := pack_attached md5 hmd5 c
     (ipmbEncode h ([a % 16, cfg.priv % 16] ++ b.challenge ++ leBytes 4 cfg.outSeq)) hc.attached (by rw [hc.auth]; exact ha)
-    (by rw [hc.sid]; exact conf.tempSid) hc.seqLt (by rw [hc.pw]; exact conf.pwLen)
+    (by rw [hc.sid]; exact conf.tempSid) (by rw [hc.seq0]; decide) (by rw [hc.pw]; exact conf.pwLen)
     (by simp [ipmbEncode_length, conf.chalLen])
   have hd : c' = { c with s := { c.s with seq := carriedSeq c.s } } ∧ d = d' := by
     rw [g1] at h1; simpa using h1
@@ -312,7 +312,7 @@ include hmd5 conf rel in
 theorem fail_activate (s : σ) (c : Client) (a : Nat) (Q : σ → Prop) (f : Fault)
     (hf : Fails md5 b P π lostAt cfg.maxRetries Q f s) (hph : (π s).phase = .challenged a)
     (hout : (π s).outSeq < 4294967296) (ha : a = 0 ∨ a = 4 ∨ a = 2)
-    (hca : c.s.auth = a) (hcp : c.s.pw = cfg.pw) (hcq : c.s.seq < 4294967296) :
+    (hca : c.s.auth = a) (hcp : c.s.pw = cfg.pw) (hcq : c.s.seq = 0) (hci : c.s.activated = false) :
     ∃ ds s' c' e, e.isOk = false ∧ π s' = π s ∧ Q s' ∧ c'.s.activated = c.s.activated ∧
       ∀ sent, estabActivate md5 P cfg sent s c [leBytes 4 b.tempSid, b.challenge] =
         ⟨s', c', sent ++ tagAll .activate ds, e⟩ := by
@@ -326,7 +326,7 @@ theorem fail_activate (s : σ) (c : Client) (a : Nat) (Q : σ → Prop) (f : Fau
         (bmcHdr_hdrOf cfg c 58 conf.rsSa) ha hph hout hc'.1
       exact ⟨d, r, c'', g1, ⟨g2, by rw [g3, hc'.2]⟩, g4, g5⟩)
     Q f s ⟨true, ⟨a, b.tempSid, c.s.seq, c.s.activated, cfg.pw⟩, (c.rqSeq + 1) % 64⟩ rfl
-    ⟨⟨rfl, rfl, rfl, rfl, hcq, rfl⟩, rfl⟩ hf
+    ⟨⟨rfl, rfl, rfl, rfl, hcq, hci, rfl⟩, rfl⟩ hf
   simp only [hdrOf] at h1
   rcases h5 with h5 | ⟨cc, hcc, h5⟩ <;> subst h5
   · refine ⟨ds, s', c', .retryError, rfl, h3, h4, h2.2, fun sent => ?_⟩
@@ -376,8 +376,8 @@ theorem failed_open (j : Nat) (hj : j ≤ 3) (f : Fault) (s0 : σ) (c0 : Client)
     (hw : ∀ d, FailsAt md5 b P π lostAt cfg.maxRetries f
       (fun s => ∃ k, k ≤ cfg.maxRetries ∧ LossRun P lostAt (fun _ => True) k s) j (P s0 d).1)
     (hch : chooseAuth cfg.pref (b.caps % 64) = some a) (ha : a = 0 ∨ a = 4 ∨ a = 2) (hoff : offered b.caps a = true)
-    (hcp : c0.s.pw = cfg.pw) (hcq : c0.s.seq < 4294967296) (hca : c0.s.activated = false) :
-    ∃ s' c' sent e, establish md5 P cfg s0 c0 = ⟨s', c', sent, e⟩ ∧ e.isOk = false ∧ (π s').bad = (π s0).bad ∧
+    (hcp : c0.s.pw = cfg.pw) (hcq : c0.s.seq = 0) (hca : c0.s.activated = false) :
+    ∃ s' c' sent e, handshake md5 P cfg s0 c0 = ⟨s', c', sent, e⟩ ∧ e.isOk = false ∧ (π s').bad = (π s0).bad ∧
       AfterFailure π lostAt P b cfg a j s' c' := by
   obtain ⟨p0, p1⟩ := run_ping rel s0 hl0 hph
   have hw0 := hw pingD
@@ -386,7 +386,7 @@ theorem failed_open (j : Nat) (hj : j ≤ 3) (f : Fault) (s0 : σ) (c0 : Client)
   | 0, _, hw0 =>
     obtain ⟨ds, s', e, f1, f2, f3, f4⟩ := fail_authCap hmd5 conf rel (P s0 pingD).1 { c0 with attached := false } _ f hw0
       (by rw [p1]) o1 rfl
-    refine ⟨s', _, _, e, by simp only [establish, p0]; rw [f4], f1, by rw [f2, p1], Or.inl ⟨by omega, Or.inl rfl, ?_⟩⟩
+    refine ⟨s', _, _, e, by simp only [handshake, p0]; rw [f4], f1, by rw [f2, p1], Or.inl ⟨by omega, Or.inl rfl, ?_⟩⟩
     rw [f2, p1]; rfl
   | 1, _, hw0 =>
     obtain ⟨k1, hk1, hl1⟩ := hw0
@@ -395,7 +395,7 @@ theorem failed_open (j : Nat) (hj : j ≤ 3) (f : Fault) (s0 : σ) (c0 : Client)
     obtain ⟨ds, s', e, f1, f2, f3, f4⟩ := fail_challenge hmd5 conf rel s1
       { attached := false, s := c0.s, rqSeq := (c0.rqSeq + 1) % 64 } a
       [[1], [b.caps % 64], [0], [0], [0, 0, 0], [0]] _ f a4 (by rw [a3]) (by rw [a3]; exact o1) rfl rfl hch ha hoff
-    refine ⟨s', _, _, e, by simp only [establish, p0]; rw [a5, f4], f1, by rw [f2, a3, p1], Or.inl ⟨by omega, Or.inl rfl, ?_⟩⟩
+    refine ⟨s', _, _, e, by simp only [handshake, p0]; rw [a5, f4], f1, by rw [f2, a3, p1], Or.inl ⟨by omega, Or.inl rfl, ?_⟩⟩
     rw [f2, a3]; rfl
   | 2, _, hw0 =>
     obtain ⟨k1, hk1, hl1⟩ := hw0
@@ -407,8 +407,8 @@ theorem failed_open (j : Nat) (hj : j ≤ 3) (f : Fault) (s0 : σ) (c0 : Client)
       [[1], [b.caps % 64], [0], [0], [0, 0, 0], [0]] _ k2 hk2 hl2 (by rw [a3]) rfl rfl hch ha hoff
     obtain ⟨ds, s', c', e, f1, f2, f3, f4, f5⟩ := fail_activate hmd5 conf rel s2
       { attached := false, s := { c0.s with auth := a }, rqSeq := ((c0.rqSeq + 1) % 64 + 1) % 64 } a _ f b4
-      (by rw [b3]) (by rw [b3, a3]; exact o1) ha rfl hcp hcq
-    refine ⟨s', c', _, e, by simp only [establish, p0]; rw [a5, b5, f5], f1, by rw [f2, b3, a3, p1],
+      (by rw [b3]) (by rw [b3, a3]; exact o1) ha rfl hcp hcq hca
+    refine ⟨s', c', _, e, by simp only [handshake, p0]; rw [a5, b5, f5], f1, by rw [f2, b3, a3, p1],
       Or.inl ⟨by omega, Or.inr (by rw [f4]; exact hca), ?_⟩⟩
     rw [f2, b3]; rfl
   | 3, _, hw0 =>
@@ -422,12 +422,12 @@ theorem failed_open (j : Nat) (hj : j ≤ 3) (f : Fault) (s0 : σ) (c0 : Client)
     obtain ⟨k3, hk3, hl3⟩ := b4
     obtain ⟨ds3, s3, _, _, c3, c4, c5⟩ := run_activate hmd5 conf rel s2
       { attached := false, s := { c0.s with auth := a }, rqSeq := ((c0.rqSeq + 1) % 64 + 1) % 64 } a _ k3 hk3 hl3
-      (by rw [b3]) ha rfl hcp hcq
+      (by rw [b3]) ha rfl hcp hcq hca
     have live3 : Live b cfg a none (π s3)
         { attached := true, s := ⟨a, b.sid, b.inSeq0, true, cfg.pw⟩, rqSeq := (((c0.rqSeq + 1) % 64 + 1) % 64 + 1) % 64 } :=
       ⟨by rw [c3], by rw [c3]; exact nextSeq_lt _ conf.outSeqLt, rfl, rfl, rfl, rfl, rfl, rfl, conf.inSeq⟩
     obtain ⟨ds, s', c', e, l, f1, f2, f3, f4, f5⟩ := fail_setPriv hmd5 conf rel s3 _ a _ f c4 ha live3
-    exact ⟨s', c', _, e, by simp only [establish, p0]; rw [a5, b5, c5, f5], f1, by rw [f4, c3, b3, a3, p1],
+    exact ⟨s', c', _, e, by simp only [handshake, p0]; rw [a5, b5, c5, f5], f1, by rw [f4, c3, b3, a3, p1],
       Or.inr ⟨rfl, ⟨l, f3⟩, f2⟩⟩
 
 include hmd5 conf rel in
@@ -439,18 +439,18 @@ theorem failed_open_close (hg : cfg.closeGuard = true) (j : Nat) (hj : j ≤ 3) 
     (hw : ∀ d, FailsAt md5 b P π lostAt cfg.maxRetries f
       (fun s => ∃ k, k ≤ cfg.maxRetries ∧ LossRun P lostAt (fun _ => True) k s) j (P s0 d).1)
     (hch : chooseAuth cfg.pref (b.caps % 64) = some a) (ha : a = 0 ∨ a = 4 ∨ a = 2) (hoff : offered b.caps a = true)
-    (hcp : c0.s.pw = cfg.pw) (hcq : c0.s.seq < 4294967296) (hca : c0.s.activated = false) :
-    (establish md5 P cfg s0 c0).outcome.isOk = false ∧
-    (close md5 P cfg (establish md5 P cfg s0 c0).peer (establish md5 P cfg s0 c0).client).outcome = .ok [] ∧
-    (π (close md5 P cfg (establish md5 P cfg s0 c0).peer (establish md5 P cfg s0 c0).client).peer).phase.sessionOpen = false ∧
-    (π (close md5 P cfg (establish md5 P cfg s0 c0).peer (establish md5 P cfg s0 c0).client).peer).bad = (π s0).bad ∧
-    (j ≤ 2 → (close md5 P cfg (establish md5 P cfg s0 c0).peer (establish md5 P cfg s0 c0).client).sent = [] ∧
-      (close md5 P cfg (establish md5 P cfg s0 c0).peer (establish md5 P cfg s0 c0).client).peer =
-        (establish md5 P cfg s0 c0).peer) ∧
+    (hcp : c0.s.pw = cfg.pw) (hcq : c0.s.seq = 0) (hca : c0.s.activated = false) :
+    (handshake md5 P cfg s0 c0).outcome.isOk = false ∧
+    (close md5 P cfg (handshake md5 P cfg s0 c0).peer (handshake md5 P cfg s0 c0).client).outcome = .ok [] ∧
+    (π (close md5 P cfg (handshake md5 P cfg s0 c0).peer (handshake md5 P cfg s0 c0).client).peer).phase.sessionOpen = false ∧
+    (π (close md5 P cfg (handshake md5 P cfg s0 c0).peer (handshake md5 P cfg s0 c0).client).peer).bad = (π s0).bad ∧
+    (j ≤ 2 → (close md5 P cfg (handshake md5 P cfg s0 c0).peer (handshake md5 P cfg s0 c0).client).sent = [] ∧
+      (close md5 P cfg (handshake md5 P cfg s0 c0).peer (handshake md5 P cfg s0 c0).client).peer =
+        (handshake md5 P cfg s0 c0).peer) ∧
     (j = 3 → ∃ ds, ds ≠ [] ∧
-      (close md5 P cfg (establish md5 P cfg s0 c0).peer (establish md5 P cfg s0 c0).client).sent = tagAll .close ds ∧
+      (close md5 P cfg (handshake md5 P cfg s0 c0).peer (handshake md5 P cfg s0 c0).client).sent = tagAll .close ds ∧
       (∀ d ∈ ds, Carries d 60 (leBytes 4 b.sid)) ∧
-      (π (close md5 P cfg (establish md5 P cfg s0 c0).peer (establish md5 P cfg s0 c0).client).peer).phase = .closed) := by
+      (π (close md5 P cfg (handshake md5 P cfg s0 c0).peer (handshake md5 P cfg s0 c0).client).peer).phase = .closed) := by
   obtain ⟨s', c', sent, e, h1, h2, h3, h4⟩ := failed_open hmd5 conf rel j hj f s0 c0 a hl0 hph hout hw hch ha hoff hcp hcq hca
   rw [h1]
   simp only
@@ -474,20 +474,20 @@ NotSupportedError, no session object is attached. -/
 theorem establish_noauth (hn : cfg.noAuthRaises = true) (R : Nat) (hR : R ≤ cfg.maxRetries) (s0 : σ) (c0 : Client)
     (hl0 : lostAt s0 = false) (hph : (π s0).phase = .start) (hw : ∀ d, Within P lostAt R 1 (P s0 d).1)
     (hch : chooseAuth cfg.pref (b.caps % 64) = none) :
-    ∃ ds1, (establish md5 P cfg s0 c0).sent = (.ping, pingD) :: tagAll .authCap ds1 ∧
+    ∃ ds1, (handshake md5 P cfg s0 c0).sent = (.ping, pingD) :: tagAll .authCap ds1 ∧
       (1 ≤ ds1.length ∧ ds1.length ≤ R + 1) ∧ (∀ d ∈ ds1, OutsideSession d ∧ Carries d 56 [0x0e, cfg.priv]) ∧
-      (establish md5 P cfg s0 c0).outcome = .notSupported ∧
-      (π (establish md5 P cfg s0 c0).peer).phase = .capsSent ∧
-      (π (establish md5 P cfg s0 c0).peer).bad = (π s0).bad ∧
-      (establish md5 P cfg s0 c0).client.attached = false := by
+      (handshake md5 P cfg s0 c0).outcome = .notSupported ∧
+      (π (handshake md5 P cfg s0 c0).peer).phase = .capsSent ∧
+      (π (handshake md5 P cfg s0 c0).peer).bad = (π s0).bad ∧
+      (handshake md5 P cfg s0 c0).client.attached = false := by
   obtain ⟨p0, p1⟩ := run_ping rel s0 hl0 hph
   obtain ⟨k1, hk1, hl1⟩ := hw pingD
   obtain ⟨ds1, s1, a1, a2, a3, _, a5⟩ := run_authCap hmd5 conf rel (P s0 pingD).1 { c0 with attached := false } _ k1
     (by omega) hl1 (by rw [p1]) rfl
-  have hest : establish md5 P cfg s0 c0 =
+  have hest : handshake md5 P cfg s0 c0 =
       ⟨s1, { attached := false, s := { c0.s with auth := 256 }, rqSeq := (c0.rqSeq + 1) % 64 },
        tagAll .ping [pingD] ++ tagAll .authCap ds1, .notSupported⟩ := by
-    simp only [establish, p0]
+    simp only [handshake, p0]
     rw [a5]
     simp only [estabChallenge, List.getD_cons_zero, List.getD_cons_succ, hch, hn, Option.isNone_none, Bool.and_self,
       if_true, Option.getD_none]
@@ -500,14 +500,14 @@ end loops
 handshake ends there, no session object is attached — against ANY peer -/
 theorem establish_ping_failed {σ : Type} (md5 : List Nat → List Nat) (P : σ → List Nat → σ × Option (List Nat))
     (cfg : Cfg) (p0 : σ) (c0 : Client) (h : (ping P p0).2.2.isOk = false) :
-    (establish md5 P cfg p0 c0).client = { c0 with attached := false } ∧
-    (establish md5 P cfg p0 c0).peer = (ping P p0).1 ∧
-    (establish md5 P cfg p0 c0).sent = tagAll .ping (ping P p0).2.1 ∧
-    (establish md5 P cfg p0 c0).outcome.isOk = false := by
+    (handshake md5 P cfg p0 c0).client = { c0 with attached := false } ∧
+    (handshake md5 P cfg p0 c0).peer = (ping P p0).1 ∧
+    (handshake md5 P cfg p0 c0).sent = tagAll .ping (ping P p0).2.1 ∧
+    (handshake md5 P cfg p0 c0).outcome.isOk = false := by
   rcases hp : ping P p0 with ⟨p1, s0, o⟩
   rw [hp] at h
   simp only at h
-  cases o <;> simp [establish, hp, Outcome.isOk] at h ⊢
+  cases o <;> simp [handshake, hp, Outcome.isOk] at h ⊢
 
 /-! ### the reference BMC with a fault plan is such a peer -/
 
